@@ -60,7 +60,30 @@ def likelihood_call_sites(repo):
     return sites
 
 
+def namespace_functions_rule(ctx):
+    """C17.ord (site clause): the prior-then-likelihood call sites can run.  Frozen API fact: an array-API namespace (array_api_compat.numpy / .torch, jax.numpy)
+    has no `to_device` function -- it is a helper of array_api_compat itself and a method of arrays -- so `xp.to_device(a, device)` raises AttributeError and the
+    call site never reaches the likelihood."""
+    import ast as _ast
+    repo = ctx.repo
+    bad = []
+    n = 0
+    for f_ in repo.all_functions():
+        for n_ in walk_no_nested(f_.node):
+            if isinstance(n_, _ast.Call) and isinstance(n_.func, _ast.Attribute) and n_.func.attr == "to_device":
+                r_ = n_.func.value
+                n += 1
+                if (isinstance(r_, _ast.Name) and r_.id == "xp") or (isinstance(r_, _ast.Attribute) and r_.attr == "xp"):
+                    bad.append((f_, n_))
+    ctx.count("to_device_calls", n)
+    ctx.decide(not bad, "C17.ord", "package", loc_of(bad[0][0], bad[0][1]) if bad else "src/aspire",
+               "no call site asks an array namespace for a to_device function",
+               (f"{bad[0][0].ident} calls `{_ast.unparse(bad[0][1].func)}(...)`: array namespaces have no to_device function (AttributeError), so this prior / likelihood call site raises before "
+                "the likelihood is reached -- convert_to_samples(x) with its default evaluate=True cannot be used") if bad else "", disc="namespace-function")
+
+
 def run(ctx):
+    namespace_functions_rule(ctx)
     repo = ctx.repo
     base = repo.cls(SAMPLER)
     wrapper = base.methods.get("log_likelihood")
@@ -274,8 +297,9 @@ MUTANTS = [
     M("emcee evidence set: prior dropped", _MC, "samples_evidence.log_prior = self.log_prior(samples_evidence)\n", "", "C17.ord"),
     M("blackjax target: prior only if bounded", _BJ, "samples.log_prior = samples.array_to_namespace(self.log_prior(samples))\n        samples.log_likelihood = samples.array_to_namespace(\n            self.log_likelihood(samples)\n        )\n\n        # Compute target",
       "if beta < 1.0:\n            samples.log_prior = samples.array_to_namespace(self.log_prior(samples))\n        samples.log_likelihood = samples.array_to_namespace(\n            self.log_likelihood(samples)\n        )\n\n        # Compute target", "C17.ord"),
-    M("convert_to_samples: likelihood first", _A, "if log_prior is None:\n                logger.info(\"Evaluating log prior\")\n                samples.log_prior = samples.xp.to_device(\n                    self.log_prior(samples), samples.device\n                )\n            if log_likelihood is None:\n                logger.info(\"Evaluating log likelihood\")\n                samples.log_likelihood = samples.xp.to_device(\n                    self.log_likelihood(samples), samples.device\n                )",
-      "if log_likelihood is None:\n                logger.info(\"Evaluating log likelihood\")\n                samples.log_likelihood = samples.xp.to_device(\n                    self.log_likelihood(samples), samples.device\n                )\n            if log_prior is None:\n                logger.info(\"Evaluating log prior\")\n                samples.log_prior = samples.xp.to_device(\n                    self.log_prior(samples), samples.device\n                )", "C17.ord"),
+    M("convert_to_samples: likelihood first", _A, "if log_prior is None:\n                logger.info(\"Evaluating log prior\")\n                samples.log_prior = samples.array_to_namespace(\n                    self.log_prior(samples)\n                )\n            if log_likelihood is None:\n                logger.info(\"Evaluating log likelihood\")\n                samples.log_likelihood = samples.array_to_namespace(\n                    self.log_likelihood(samples)\n                )",
+      "if log_likelihood is None:\n                logger.info(\"Evaluating log likelihood\")\n                samples.log_likelihood = samples.array_to_namespace(\n                    self.log_likelihood(samples)\n                )\n            if log_prior is None:\n                logger.info(\"Evaluating log prior\")\n                samples.log_prior = samples.array_to_namespace(\n                    self.log_prior(samples)\n                )", "C17.ord"),
+    M("convert_to_samples moves the prior with a function the namespace does not have", _A, "samples.log_prior = samples.array_to_namespace(\n                    self.log_prior(samples)\n                )", "samples.log_prior = samples.xp.to_device(\n                    self.log_prior(samples), samples.device\n                )", "C17.ord"),
     M("counter increased after the user call", _SB, "self.n_likelihood_evaluations += len(samples)\n        return self._log_likelihood(samples)", "out = self._log_likelihood(samples)\n        self.n_likelihood_evaluations += len(samples)\n        return out", "C17.cnt"),
     M("counter counts calls not points", _SB, "self.n_likelihood_evaluations += len(samples)", "self.n_likelihood_evaluations += 1", "C17.cnt"),
     M("uncounted direct call", _B, "samples.log_likelihood = self.log_likelihood(samples)", "samples.log_likelihood = self._log_likelihood(samples)", "C17.cnt", within="SMCSampler.log_prob"),
